@@ -77,7 +77,22 @@ func anyRouteConfig(name, stamp string) *anypb.Any {
 }
 
 // anyCluster: an EDS cluster whose EDS service name is the stamp.
+// Clusters c1..c3 whose stamp ends in an even digit are sent in the "linked" form: an EDS cluster that names the endpoint
+// set e1..e3 of the history universe (what a real mesh looks like) and carries its stamp as the address of an inline
+// endpoint. What is cached and served for one type never depends on the responses of another type.
 func anyCluster(name, stamp string) *anypb.Any {
+	if len(name) == 2 && name[0] == 'c' && name[1] >= '1' && name[1] <= '3' && stamp != "" && (stamp[len(stamp)-1]-'0')%2 == 0 && stamp[len(stamp)-1] >= '0' && stamp[len(stamp)-1] <= '9' {
+		cla := &v3endpointpb.ClusterLoadAssignment{ClusterName: name, Endpoints: []*v3endpointpb.LocalityLbEndpoints{{
+			LbEndpoints: []*v3endpointpb.LbEndpoint{{HostIdentifier: &v3endpointpb.LbEndpoint_Endpoint{Endpoint: &v3endpointpb.Endpoint{
+				Address: &v3core.Address{Address: &v3core.Address_SocketAddress{SocketAddress: &v3core.SocketAddress{
+					Address: stamp, PortSpecifier: &v3core.SocketAddress_PortValue{PortValue: 80}}}}}}}}}}}
+		return mustAny(&v3clusterpb.Cluster{
+			Name:                 name,
+			ClusterDiscoveryType: &v3clusterpb.Cluster_Type{Type: v3clusterpb.Cluster_EDS},
+			EdsClusterConfig:     &v3clusterpb.Cluster_EdsClusterConfig{ServiceName: "e" + name[1:]},
+			LoadAssignment:       cla,
+		})
+	}
 	return mustAny(&v3clusterpb.Cluster{
 		Name:                 name,
 		ClusterDiscoveryType: &v3clusterpb.Cluster_Type{Type: v3clusterpb.Cluster_EDS},
@@ -172,6 +187,14 @@ func stampOf(res interface{}) string {
 	case *xdsresource.ClusterResource:
 		if r == nil {
 			return "typednil"
+		}
+		if ie := r.InlineEndpoints; ie != nil && len(ie.Localities) > 0 && len(ie.Localities[0].Endpoints) > 0 {
+			// the linked form: the stamp is the address of the inline endpoint
+			a := ie.Localities[0].Endpoints[0].Addr().String()
+			if i := strings.LastIndex(a, ":"); i >= 0 {
+				return a[:i]
+			}
+			return a
 		}
 		return r.EndpointName
 	case *xdsresource.EndpointsResource:
